@@ -473,7 +473,7 @@ def yaml_ops(ctx, ug, nfiles):
 def run(ctx):
     ctx.level = "proof"
     ctx.assumptions += [
-        "HDF5 snapshot clause: proved at the level of index maps only (Model/Snapshot.lean: which file position every cell is written to, which position each reader fetches; theorems snapshot_layout, buffered_roundtrip, plain_roundtrip, legacy_roundtrip); HDF5 itself, the stored doubles, the floating point position->index computations of the readers, resolution degrading (more than one old cell per new cell) and the AMR/Voronoi branches of the plain reader are not modelled - the first three are exercised by the snap/snapb experiment (search only)",
+        "HDF5 snapshot clause: proved at the level of index maps only (Model/Snapshot.lean: which file position every cell is written to, which position each reader fetches; theorems snapshot_layout, buffered_roundtrip, plain_roundtrip, legacy_roundtrip); HDF5 itself, the stored doubles, the floating point position->index computations of the readers, the /Units group (internal hydro units), the velocity limiter of ionization_to_hydro, velocities (oracle only; the buffered reader does not read them), resolution degrading (more than one old cell per new cell) and the AMR/Voronoi branches of the plain reader are not modelled - the first three are exercised by the snap/snapb experiment (search only)",
         "text is handled as lines of characters (getline); names and values contain no newline; characters are compared by code point (the generator stays in ASCII, where this is std::string's byte order)",
         "theorems about units are over exact rationals (the exact values of the table's doubles); rounding of the double operations is only measured (bit-exact rate, max relative deviation)",
         "std::stoi overflow of an exponent and exponents with |p| > 6 are outside the generated domain",
@@ -923,7 +923,7 @@ MANIFEST = dict(
           "the real code: parse(print d)=d, print idempotent, used-values dump fed back reproduces every queried value to 1e-5, to_unit(to_SI)=id to 1e-14, compound=product, x^0=1, table relations. Snapshot index maps: see note."),
     note=("HDF5 snapshot clause: proved only at the level of INDEX MAPS (Model/Snapshot.lean: block loop and offsets of the task-based and legacy writer, subgrid/cell numbering, stride arithmetic "
           "of BufferedCMacIonizeSnapshotDensityFunction, coordinate binning loop of CMacIonizeSnapshotDensityFunction; theorems snapshot_layout, buffered_roundtrip, plain_roundtrip, "
-          "legacy_roundtrip, snapshot_blocksize_irrelevant for every block size and layout), tied by stream snapshot-index (real writer + both real readers on generated layouts incl. subgrids of "
+          "legacy_roundtrip, snapshot_blocksize_irrelevant for every block size and layout; decodeBuffered_encode, decodePlain_encode: for every combination of stored quantities - number and/or mass density, temperature and/or pressure, with/without neutral fractions, reader flags - the readers' fallback arithmetic inverts Hydro::ionization_to_hydro in exact arithmetic), tied by streams snapshot-fields (real Hydro + writer + both readers on all 36 hydro and 2 non-hydro combinations, values bit-identical to the Float model) and snapshot-index (real writer + both real readers on generated layouts incl. subgrids of "
           "just below/exactly/just above one and two writer blocks: position of every cell in every dataset and position fetched by each reader identical to the model). NOT modelled: HDF5 itself, "
           "stored doubles, floating point position->index computations, resolution degrading, AMR/Voronoi snapshots; the first three are exercised by a replayable experiment, search only "
           "(real writer -> both readers on random geometries, every cell compared). Also outside the theorems: number formatting of the used-values dump (operator<< of "
